@@ -70,6 +70,11 @@ CHECKS = {
     technique="TLA+ spec RpycWire as independent reference for the 5.x wire format (tag table, shortest form, frame layout, numeric constants): constants, vectors and frames compared byte for byte with the implementation; a reference peer whose every frame is encoded/decoded by TLC converses with a real Connection in both roles",
     text="the published constants, encodings and frame layout are literals of the specification; TLC exports them and evaluates Enc/Dec on vectors and on every frame of scripted conversations (GETROOT, GETATTR, CALL/CALLATTR with each label, PING, exception, DEL, CLOSE) between the reference peer and a real client and a real server",
     note="the reference is only as independent as its author (constants taken from the pinned release and documentation); zlib output compared after decompression"),
+ "C03": dict(
+    spec="RpycBoxing", design="5/C03",
+    technique="TLA+ spec RpycBoxing: boxing/arrival table for all value shapes to nesting depth 2 (exported by TLC with meta-properties as ASSUMEs) and a TLC-checked identity state machine (send / echo / re-send / drop); every shape refined to concrete objects and sent, inspected and passed back over a real connection pair; every history edge replayed with identity checks; obtain/deliver under classic mode",
+    text="for 7734 shapes (exact plain values, subclass instances, containers, functions, classes, modules; tuples, frozensets, slices of them) the specification says what must arrive (exact-type copy, fresh tuple, reference); the receiving handler checks exactly that on a real connection and the sender checks that references come home as the original object; histories check that a re-received object is the same proxy while one is alive and that echoes resolve to the original; mutation through references and obtain/deliver independence are checked",
+    note="leaves refined to representative concrete types; quick tier executes a seeded third of the shapes"),
 }
 NA = {}
 
